@@ -547,3 +547,45 @@ prop('C07',
      'produced (millions of hand-offs per run), nothing more.',
      level_note='TSan keeps a bounded access history and sees only interleavings the 16 cores produce, hence tiny '
      'structures and repeated rounds. It does not explore weak-memory outcomes.')
+
+# ----------------------------------------------------------------------- C05
+prop('C05',
+     'seq: random op strings (put, putchar when room is certain, get, empty; three fill biases) for every buf_len in '
+     '{2..9,16,255,256,257} and every start index, exactly-sized heap storage; co: producer and consumer "threads" '
+     '(4-44 bytes, put and putchar vs get and empty) for buf_len 2..5 and every start index under random '
+     '(p=0.02/0.1/0.5) and PCT (d=1..3) schedules with a switch possible at every instrumented access; isr: 11 '
+     'scenarios (empty / one byte / one free slot / full, across the wrap) x buf_len 2..5 x every start index with an '
+     'interrupt of the opposite role doing 1-3 operations injected before every schedule point of put, putchar, get '
+     'and empty; thr: real producer/consumer threads on buf_len 2,3,4,5,7,17 under ASan+UBSan (the TSan twin is C07). '
+     'Non-trivial = run containing a refused put and an empty get and a wrap of the indices; distinct by hash of the '
+     'event log / schedule / placement.',
+     [Stage('seq', ['harness/rb.c'], RING, preset='asan', nproc=16,
+            args={'quick': ['--extra', 'seq'], 'thorough': ['--extra', 'seq']},
+            needs_min={'histories_nontrivial': 10000}),
+      Stage('isr', ['harness/rb.c'] + SHIM, RING, preset='shim', nproc=4, cflags=['-DRB_SHIM'],
+            args={'quick': ['--extra', 'isr'], 'thorough': ['--extra', 'isr']},
+            needs_min={'single_isr_placements': 3000}),
+      Stage('co', ['harness/rb.c'] + SHIM, RING, preset='shim', nproc=16, cflags=['-DRB_SHIM'],
+            args={'quick': ['--extra', 'co'], 'thorough': ['--extra', 'co']},
+            needs_min={'schedules_nontrivial': 10000, 'bytes_handed_over': 100000}),
+      Stage('thr-asan', ['harness/threads.c'], THR_ALL, preset='asan', nproc=2,
+            args={'quick': ['--extra', 'ring'], 'thorough': ['--extra', 'ring']},
+            needs_min={'ring_bytes_handed_over': 100000}, timeout={'quick': 600, 'thorough': 3600}),
+      Stage('co-clang', ['harness/rb.c'] + SHIM, RING, preset='shim', cc='clang', nproc=16, cflags=['-DRB_SHIM'],
+            tiers=('thorough',), args={'thorough': ['--extra', 'co', '--cases', '500000']})],
+     assumptions=['execution under the shim is serialised (sequentially consistent); memory-order effects are C07',
+                  'only ringbuf_put is used from interrupt context (ringbuf_putchar busy-waits by design)',
+                  'a put may fail only if own successful puts minus gets known to have returned before its invocation '
+                  '>= buf_len-1; symmetrically for get/empty (sound under-approximation of "at some instant during '
+                  'the call")'],
+     exhaustive_note='isr stage: every placement of one interrupt in the listed scenarios and geometries',
+     engine='E1+E2+E3', technique='runtime monitoring: sequential model check under ASan; schedule control through '
+     'compiler-instrumented schedule points (interrupt-injection sweep in both directions, random/PCT coroutine '
+     'schedules) with guard zones; real threads under ASan; known-stream prefix oracle and boundary-failure oracles',
+     level_text='Exploration with fault enumeration of interrupt placements. The real ringbuf.c runs sequentially for '
+     'many lengths and start indices, under a private TSan runtime with an interrupt of the opposite role injected at '
+     'every instrumented access and under tens of thousands of random and priority coroutine schedules, and with real '
+     'threads; the consumed bytes must be exactly a prefix of the produced stream, refusals and empties must be '
+     'justified by the counts observable at the call boundary, and no access may fall outside the storage.',
+     level_note='Schedules are sampled for the free-preemption case; one interrupt per scenario in the sweep (two '
+     'simultaneous producers or consumers are outside the supported pattern).')
